@@ -140,6 +140,7 @@ where
         self.actor_states.hash(state);
         self.history.hash(state);
         self.timers_set.hash(state);
+        self.crashed.hash(state);
         self.network.hash(state);
     }
 }
@@ -156,6 +157,7 @@ where
         self.actor_states.eq(&other.actor_states)
             && self.history.eq(&other.history)
             && self.timers_set.eq(&other.timers_set)
+            && self.crashed.eq(&other.crashed)
             && self.network.eq(&other.network)
     }
 }
